@@ -2,8 +2,11 @@
 //! dependency on /repo, so every build picks up the current working tree.
 
 pub mod algebra;
+pub mod bulk;
 pub mod common;
 pub mod disjoint;
+pub mod entryeq;
+pub mod eqclone;
 pub mod fam;
 pub mod maphist;
 pub mod model;
